@@ -132,6 +132,10 @@ class FileProxy:
             raise StopIteration
         return line
 
+    def __bool__(self):
+        # as true or false as the object it stands for
+        return bool(self._real)
+
     def __getattr__(self, name):
         return getattr(self._real, name)
 
